@@ -116,7 +116,7 @@ def run_case(ctx, i, rng):
             ctx.count("long_names_under_the_edif_policy", k_)
     else:
         n = gen_ir.generate(rng, profile="flatten", share=0.6, ndefs=rng.randint(3, 9), max_children=rng.choice([2, 3, 4]),
-                            outside=(i % 4 == 0))
+                            outside=(i % 4 == 0), big=(i % 40 == 7))
         if i % 3 == 1:
             # like a netlist that was read from EDIF or exported once: elements carry EDIF identifiers
             for l in n.libraries:
@@ -192,8 +192,13 @@ def run_case(ctx, i, rng):
                     free = [op for op in ch.pins if op.wire is None]
                     if free and rng.random() < 0.6:
                         w_.connect_pin(rng.choice(free))
-            for k_, c_ in enumerate([c_ for c_ in top.cables if "EDIF.identifier" in c_][:2]):
-                if rng.random() < 0.5:
+            for k_, c_ in enumerate([c_ for c_ in top.cables if "EDIF.identifier" in c_][:3]):
+                if k_ == 2:
+                    # ... and one with a number that has a digit LESS than the others (sessions differ in size)
+                    if ahead >= 10 and rng.random() < 0.6:
+                        c_["EDIF.identifier"] = "cable_sdn_flat_%s" % ("9" * (len(str(ahead)) - 1))
+                        ctx.count("top_level_identifiers_with_fewer_digits")
+                elif rng.random() < 0.5:
                     c_["EDIF.identifier"] = "cable_sdn_flat_%d" % (ahead + 12 + k_ + rng.randrange(0, 20))
                     ctx.count("top_level_identifiers_from_another_session")
             for k_ in range(rng.randint(1, 2)):
